@@ -1,6 +1,7 @@
 import NauyacaVerif.Drv.Common
 import NauyacaVerif.Srv.Conn
 import NauyacaVerif.Srv.Pump
+import NauyacaVerif.Srv.Flow
 namespace NauyacaVerif.Drv.SrvD
 open NauyacaVerif.Drv Srv
 
@@ -77,6 +78,20 @@ def handle : List String → Option String
       let (hc, uc) := match p.inner with | some i => (i.hcalls, i.ucalls) | none => (0, 0)
       some s!"ok plain={toHex (plainOut p)} tcpclosed={p.tcpClosed} inner={p.inner.isSome} h={hc} u={uc}"
     | _, _ => some "bad-op"
+  | "flow" :: r :: evs =>
+    -- the response write pump: events  s (send the pieces of r) | k:<n> (limit) | r (resume) | p (pause) | l (lost)
+    match parseResp r with
+    | none => some "bad-op"
+    | some resp =>
+      let parseF (e : String) : Option Flow.FEv :=
+        if e == "s" then some (.send (Flow.pieces resp)) else if e == "r" then some .resume else if e == "p" then some .pause
+        else if e == "l" then some .lost else if e.startsWith "k:" then some (.limit (e.drop 2).toString.toNat!) else none
+      match evs.mapM parseF with
+      | none => some "bad-op"
+      | some fe =>
+        let st := Flow.frun fe
+        let showW : Flow.W → String | .write b => s!"w{b.length}" | .close => "close"
+        some s!"ok {",".intercalate (st.out.map showW)} paused={st.paused} unsent={st.unsent.length}"
   | "pumpx" :: mw :: up :: hs :: evs =>
     match parseHandler hs, evs.mapM parsePEv with
     | some handler, some evs =>
